@@ -357,6 +357,10 @@ def atom_elem(name, idx, valued=False):
         fre = z3.Function(name + "_re", *sorts)
         if valued == "real":
             return LF(C(fre(*idx)))
+        if valued == "nonneg":
+            # instance, at this index, of the precondition  forall idx. name[idx] >= 0
+            core.define(fre(*idx) >= 0)
+            return LF(C(fre(*idx)))
         fim = z3.Function(name + "_im", *sorts)
         return LF(C(fre(*idx), fim(*idx)))
     return LF(C0, [Term((), (), C1, name, idx)])
@@ -714,10 +718,32 @@ class SArr:
     def __neg__(self):
         r = elementwise(self, lambda v: -v)
         r.struct = _struct_map(self, lambda v: -v, "mul")
+        if self.name:
+            r.name = "neg(%s)" % self.name        # a deterministic name: abstract kernels are keyed by the arrays they depend on
         return r
 
     def __pow__(self, e):
         return elementwise(self, lambda v: LF(v.value() ** e))
+
+    def _compare(self, o, f):
+        """elementwise comparison: a 0/1-valued array (numpy bool array), no path fork"""
+        def g(a, b):
+            return LF(C._ite(f(a.value(), b.value()), C1, C0))
+        r = self._binop(o, g)
+        r.dtype = DType("b", 8)
+        return r
+
+    def __gt__(self, o):
+        return self._compare(o, lambda a, b: a > b)
+
+    def __lt__(self, o):
+        return self._compare(o, lambda a, b: a < b)
+
+    def __ge__(self, o):
+        return self._compare(o, lambda a, b: a >= b)
+
+    def __le__(self, o):
+        return self._compare(o, lambda a, b: a <= b)
 
     def _inplace(self, o, f):
         if self.readonly:
@@ -945,6 +971,8 @@ def _norm_slice(sl, n):
             raise SValueError("slice step cannot be zero")
         pos = step > 0
     nS = S(n)
+    if sl.start is None and sl.stop is None and isinstance(step, int) and step == 1:
+        return 0, 1, n          # the whole axis: extents of arrays are >= 0 by construction
 
     def clip(v, lo, hi):
         v = S(v)
